@@ -57,6 +57,15 @@ def cases_for(ctx):
                 sps = [k for k in range(len(t["e"])) if k == 0 or (t["e"][k - 1][0] < i1 and s * t["e"][k - 1][0] + o < i1)]
                 cases.append({"kind": "project", "f": t, "s": s, "o": o, "hasiv": 1, "iv": [i1, i1 + rng.randint(0, 6)], "shape": nc + 1, "sp": rng.choice(sps)})
             cases.append({"kind": "prune", "f": t, "pred": rng.choice(["evencoord", "bigval", "evenpos", "all"]), "shape": nc + 1})
+    # loop bodies that update a delivered stand-in in place (later absent coordinates must still read the default), and traversals abandoned after a few yields
+    # (reference variants insert exactly the VISITED coordinates)
+    for c in list(cases):
+        if c["kind"] == "iter" and c["mode"] in ("shape", "rangeshape", "activeshape", "default") and rng.random() < 0.5:
+            cases.append(dict(c, poke=1))
+        elif c["kind"] == "coiter" and "ref" not in c["mode"] and rng.random() < 0.5:
+            cases.append(dict(c, poke=1))
+        elif (c["kind"] == "iterref" or (c["kind"] == "coiter" and "ref" in c["mode"])) and rng.random() < 0.6:
+            cases.append(dict(c, take=rng.randint(0, 2)))
     # the same traversals over fibers whose rank default is 2 (a stored 2 is the explicit default, a stored 0 is content)
     for c in list(cases):
         if rng.random() < (0.35 if ctx.quick else 0.6):
